@@ -36,10 +36,13 @@ MANIFEST = dict(
          "src/ whose key is a pointer or whose order is unspecified is re-extracted on every run and pinned (C19.containers_pinned, "
          "C19.walks_pinned, C19.fns_pinned); each consumer is a function of the container's enumeration order and is proved independent "
          "of it for all balances / maps, no size bound (sortedAmounts_perm, printBalance_perm, balance_den_perm, finalize_order_free, "
-         "subtotal_order_free, gt_balance_order_free, sortBy_key_perm). For the six consumers that DO leak the order (collapse_posts "
-         "totals map keyed by account_t*, put_balance, balance < amount, posts_commodities_iterator's std::set<commodity_t*>, "
-         "top_amount, strip_annotations merging lots) the negation is proved on a concrete witness (…_order_leaks) together with a …_partial theorem of what stays "
-         "order-free (a seventh, the error text of average_lot_prices, is found and localised by the runtime part only). Uninitialised reads, heap-layout and wall-clock dependence cannot be exhibited by a model: they are only EXERCISED - "
+         "subtotal_order_free, gt_balance_order_free, sortBy_key_perm). Six consumers of the pinned tree leaked the order; for each the "
+         "negation is proved on a concrete witness (…_order_leaks) with a …_partial theorem of what stays order-free. Four of them "
+         "(put_balance, top_amount, collapse_posts totals map, posts_commodities_iterator) are repaired in /repo: their form is read "
+         "from the source on every run, C19.put_balance_fixed / top_amount_fixed / collapse_totals_fixed / prices_set_fixed are "
+         "obligations that the repaired form is present, and xml_balance_order_free / top_amount_order_free / collapse_order_free / "
+         "prices_order_free follow unconditionally; `balance < amount` and strip_annotations merging lots remain (known findings), as "
+         "does the error text of average_lot_prices (found and localised by the runtime part only). Uninitialised reads, heap-layout and wall-clock dependence cannot be exhibited by a model: they are only EXERCISED - "
          "generated journals x commands are run under setarch -R on/off, MALLOC_PERTURB_, MALLOC_MMAP_THRESHOLD_=0 (reversed heap "
          "order), tcache/fastbin/arena tunables, padded and empty environments and different working directories, and sha256 of "
          "stdout+stderr+status must be identical (only the documented xml ids masked); a difference is localised to the container and "
@@ -50,10 +53,11 @@ MANIFEST = dict(
          "commodity_t::compare_by_commodity is a total order on the distinct commodities of one balance (proved for unannotated "
          "symbols; body pinned), std::stable_sort/std::map are sorted containers, glibc malloc tunables really change the layout "
          "(measured: the known leaks flip under them). Genuine findings reported by this check on the pinned tree: reg --collapse "
-         "--depth N row order (filters.h:431), xml <amount> order (balance.cc:375-379), `balance < amount` (value.cc:965-975), "
-         "prices/pricedb group order (iterators.cc:141), top_amount (report.cc:517-521), rounded/unrounded rendering of a total "
-         "holding two lots of one commodity (balance.cc:263-271 strip_annotations), error text of --average-lot-prices with lot "
-         "prices in two commodities (balance.cc:389-410); latent, not exhibitable with libstdc++: "
+         "--depth N row order (filters.h:431, fixed c8b647e), xml <amount> order (balance.cc:375-379, fixed 36e5f68), prices/pricedb "
+         "group order (iterators.cc:141, fixed fc0aedd), top_amount (report.cc:517-521, fixed c1ef985) - any of these is reported as "
+         "a violation again if it returns; still present and listed as known findings: `balance < amount` (value.cc:965-975), "
+         "rounded/unrounded rendering of a total holding two lots of one commodity (balance.cc:263-271 strip_annotations), error text "
+         "of --average-lot-prices with lot prices in two commodities (balance.cc:389-410); latent, not exhibitable with libstdc++: "
          "finalize's two-commodity branch with a zero-amount top posting of a third commodity (C19.finalize_zero_top_order_leaks).",
     technique="Lean 4 proof of permutation-invariance of every consumer of an unordered/address-ordered container + regenerated "
               "container inventory + differential model/binary check with the observed enumeration + perturbed repeated executions",
@@ -901,8 +905,21 @@ def corr_xml_prices(ctx, sweep, njournals):
     rng = ctx.rng
     envs = [sweep.envs[0]] + [e for e in sweep.envs if e["name"] in ("tcache0", "mmap0")]
     for _ in range(njournals):
-        j, comms = gen_journal(rng)
+        # costs give prices; no elided amounts, so that the commodities of the postings in journal order (what
+        # journal_posts walks) can be read off the AST without modelling finalize
+        k = rng.randint(3, 8)
+        comms = rng.sample(POOL, k)
+        g = jgen.Gen(rng, comms=comms, accounts=rng.choice(ACCOUNT_SETS), p_cost=0.35, p_elide=0, p_multi=0.6)
+        xs = []
+        while len(xs) < rng.randint(5, 16):
+            x = g.xact()
+            if all(p["amount"] is not None for p in x["posts"]):
+                xs.append(x)
+        if rng.random() < 0.5:
+            xs.sort(key=lambda x: x["date"])
+        j = {"xacts": xs}
         jtext = jgen.render(j, comms)
+        post_comms = [p["amount"]["comm"] for x in j["xacts"] for p in x["posts"]]
         obs = sweep.run_cases([(jtext, ["xml"], {}), (jtext, ["prices"], {})], envs)
         lines, wants = [], []
         for e in envs:
@@ -927,14 +944,23 @@ def corr_xml_prices(ctx, sweep, njournals):
                 if len(f) >= 3 and (not groups or groups[-1] != f[1]):
                     groups.append(f[1])
             if len(groups) == len(set(groups)) and groups:
-                lines.append("os.prices\t%s\t" % ";".join(groups) + "\t".join(sorted(groups)))
+                # σ = the observed order (used only when the collection is address-ordered); the fields are the postings'
+                # commodities in journal order; commodities without a price history emit nothing
+                lines.append("os.prices\t%s\t" % ";".join(groups) + "\t".join(post_comms))
                 wants.append(groups)
+                first = []
+                for c in post_comms:
+                    if c not in first:
+                        first.append(c)
+                ctx.feature("prices:first-appearance-order" if [c for c in first if c in groups] == groups else "prices:other-order")
             elif groups:
                 ctx.feature("prices:groups-not-contiguous")
         model = vflib.driver_run(lines) if lines else []
         for l, m, w in zip(lines, model, wants):
             ctx.count()
             got = [f.rpartition("=")[0] if l.startswith("os.putbal") else f for f in m.split("\t")[1:]]
+            if l.startswith("os.prices"):
+                got = [c for c in got if c in w]
             if got != w:
                 ctx.tie_broken("corr:" + l.split("\t")[0], "enumeration: ledger %r, model %r" % (w, got))
                 ctx.mism.append({"op": l.split("\t")[0], "ledger": w, "model": got})
